@@ -120,7 +120,15 @@ def step (x : S) (w : List String) : Option (S × String × List String) :=
     let c ← c.toNat?
     let cbs ← cbs.mapM cbOf
     let (s', vis, e) := range false c (cbs ++ [.stop]) s []
-    fin { x with st := s' } s!"vis={fmtNats vis} end={endStr e}" (["range_" ++ endStr e] ++ (if cbs.any (fun c => match c with | .put _ => true | _ => false) then ["range_put_in_callback"] else []))
+    -- the calls Range makes on the consumer, in order (g = Get, c = Commit, r = Rollback): one Get+Commit per value whose
+    -- callback returned normally; a Rollback only after a failed Get, a panic or a failed Commit — never after a success
+    let n := vis.length
+    let calls := match e with
+      | .stopped | .scriptEnd | .diffStop => String.join (List.replicate n "gc")
+      | .panicked => String.join (List.replicate (n - 1) "gc") ++ "gr"
+      | .commitErr _ => String.join (List.replicate (n - 1) "gc") ++ "gcr"
+      | .getErr _ | .blocked => String.join (List.replicate n "gc") ++ "gr"
+    fin { x with st := s' } s!"vis={fmtNats vis} end={endStr e} calls={calls}" (["range_" ++ endStr e] ++ (if cbs.any (fun c => match c with | .put _ => true | _ => false) then ["range_put_in_callback"] else []))
   | "brange" :: c :: cbs => do
     let c ← c.toNat?
     let cbs ← cbs.mapM cbOf
